@@ -219,8 +219,12 @@ def gen_record(rng, tx=None, kind=None):
         base.append(['GENE_SYMBOL', uword(rng) if rng.random() < 0.3 else word(rng)])
     if rng.random() < 0.7:
         base.append(['GENOMIC_POSITION', 'chr%d:%d-%d' % (rng.randint(1, 22), rng.randint(1, 10 ** 8), rng.randint(1, 10 ** 8))])
+    shifted_, real_, syn_ = key_pools()
+    reserved = set(shifted_) | set(real_) | set(syn_) | {'TRANSCRIPT_ID', 'GENE_ID'}
     for _ in range(rng.choice([0, 0, 1, 2, 3])):
         k = word(rng, 2, 10, 'ABCDEFGHIJKLMNOPQRSTUVWXYZ_0123456789')
+        while k in reserved:            # keys with a meaning (END, START, ...) only enter through adversarial_attr,
+            k = k + 'Q'                 # which keeps their values inside the statement's domain
         base.append([k, value(rng)])
     attrs = base + attrs
     # adversarial keys: real keys of the code base and near-misses of the shifted ones (existing keys keep their value)
@@ -531,6 +535,13 @@ def pool_requests(c, r):
         reqs.append(('c13_index_lines', [ic, split_lines(fo['indexed'])]))
         idx = [idx_spec(fo['idx_text'])] if isinstance(fo.get('idx_text'), str) else []
         reqs.append(('c13_open', [ic, lines, hashlib.sha512(fo['final'].encode('latin-1')).hexdigest(), idx]))
+        for rec in f['records']:
+            if f['circ']:
+                reqs.append(('c13_circ_wpw', [enc_circ(rec)]))
+                reqs.append(('c13_circ_wf', [enc_circ(rec)]))
+            else:
+                reqs.append(('c13_wpw', [enc_rec(rec)]))
+                reqs.append(('c13_wf', [enc_rec(rec)]))
     return reqs
 
 def check_pool(acc, c, r, ms, second):
@@ -546,9 +557,13 @@ def check_pool(acc, c, r, ms, second):
     fresh_idx = 0
     model_ptrs = []
     model_open_err = None
+    pos = 0
     for i, (f, fo) in enumerate(zip(c['files'], files)):
         ic = fo.get('is_circ', f['circ'])
-        m_iter, m_idx, m_open = ms[3 * i], ms[3 * i + 1], ms[3 * i + 2]
+        m_iter, m_idx, m_open = ms[pos], ms[pos + 1], ms[pos + 2]
+        nrec = len(f['records'])
+        m_recs = [(ms[pos + 3 + 2 * j], ms[pos + 4 + 2 * j]) for j in range(nrec)]
+        pos += 3 + 2 * nrec
         body = fo['final'].split('#CHROM')[0] if '#CHROM' in fo['final'] else ''
         if any(ord(ch) > 127 for ch in body):
             acc.count('pool/files_with_multibyte_char_in_header')
@@ -558,13 +573,31 @@ def check_pool(acc, c, r, ms, second):
             acc.count('pool/files_crlf')
         for e in f['edits']:
             acc.count('pool/edit:%s%s' % (e['type'], '+idx' if f.get('idx') else ''))
-        # T: byte-identical second write
-        if fo['text2'] != fo['text1']:
-            d6 = f['circ'] and is_d6(fo['text1'], fo['text2'])
-            acc.viol('file %d: second write differs from first: %r vs %r' % (i, fo['text1'][-300:], str(fo['text2'])[-300:]), c,
-                     finding='D6' if d6 else None)
-            if d6:
-                acc.count('D6_hits_file')
+        # T: byte-identical second write -- claimed for files all of whose records lie inside the hypothesis of the
+        # round-trip theorems (wf_rec / wf_circ, evaluated by the extracted model); note that this comparison is made
+        # on the file as written, BEFORE any edit of the history is applied
+        outside = [j for j, (_, w) in enumerate(m_recs) if w != 1]
+        if not outside:
+            if fo['text2'] != fo['text1']:
+                d6 = f['circ'] and is_d6(fo['text1'], fo['text2'])
+                acc.viol('file %d: second write differs from first: %r vs %r' % (i, fo['text1'][-300:], str(fo['text2'])[-300:]), c,
+                         finding='D6' if d6 else None)
+                if d6:
+                    acc.count('D6_hits_file')
+        else:
+            # a record outside the statement's domain slipped into this stream: behaviour only -- the re-read
+            # fails exactly when the model's re-read of some record fails, with that error class
+            acc.count('pool/files_with_record_outside_hypothesis')
+            exp = None
+            for wp, _ in m_recs:
+                s2 = dec_res(wp[1], O.U)
+                if isinstance(s2, dict):
+                    exp = s2
+                    break
+            got = canon_exc(fo['text2']) if isinstance(fo['text2'], dict) else None
+            if exp != got:
+                acc.viol('corr:C13/rewrite file %d: model re-read %s vs impl %s' % (i, exp, got), c,
+                         extra={'name': 'corr:C13/rewrite'}, no_input=True)
         # iterate_pointer
         mi = dec_res(m_iter, lambda ps: [[O.U(k), s, e] for k, s, e in ps])
         ii = canon_exc(fo['iter'])
@@ -746,8 +779,9 @@ def run_cases(ctx, cases):
             inside = ms[1] == 1
             acc.count('%s/%s/%s' % (c['kind'], 'generated_wf' if c.get('wf') else 'generated_illformed',
                                     'inside_theorem_hypothesis' if inside else 'outside_theorem_hypothesis'))
-            if inside and not c.get('wf'):
-                c = dict(c, wf=True)       # the theorem covers it: the property must hold on the code as well
+            # the theorem's hypothesis decides what is claimed: inside => the property must hold on the code;
+            # outside (whatever the generator intended) => behaviour equality with the model only
+            c = dict(c, wf=inside)
             check_wpw(acc, c, r, ms[0])
         elif c['kind'] in ('parse_line', 'circ_parse_line'):
             acc.count(c['kind'])
